@@ -24,6 +24,7 @@ RULE = ("seeded symmetric 3x3 tensors (uniaxial, pure shear, hydrostatic, repeat
         "random rotations (QR of a Gaussian matrix, det +1) x positive scale factors; scalar components and column arrays; the "
         "accessor df.equistress.* row by row. Definitions come from numpy.linalg.eigvalsh of the assembled tensor. Signs are not "
         "judged when |w_max| ~ |w_min| or trace ~ 0 within 1e-9 scale (rounding decides); exact integer ties are judged "
+        "Widened during the build: single-plane shear, nearly hydrostatic states, integer typed components, magnitudes 1e-200..1e200 (power-of-two normalised), an accessor kept while its frame is updated in place, aliasing probes on the plain functions. "
         "un-rotated. Non-trivial: tensor with non-zero deviator; distinct = distinct tensor+rotation.")
 ASSUMPTIONS = ["Mises is judged through its square (3 J2) at 1e-12 scale^2 and itself at 4 sqrt(eps) scale: a square root of a "
                "cancelling expression legitimately carries sqrt(eps) near zero; NaN is never legitimate",
